@@ -473,3 +473,91 @@ class terminals:
     ensures = {"exactly_the_terminals": lambda self, result: (
         forall(lambda l: (l in result) == (l in vals(self._edge_labels) and l.is_terminal), "EdgeLabel")
         and self._edge_labels == old(self._edge_labels))}
+
+
+# ---- HRG: label tables under add_rule / new_rule (the rule table itself is opaque, see DESIGN R2) ----------
+def rule_label_conflict(h, rule):
+    return ((rule.lhs.name in h._edge_labels and h._edge_labels[rule.lhs.name] != rule.lhs)
+            or exists(lambda k: k in rule.rhs._edges
+                      and ((rule.rhs._edges[k].label.name in h._edge_labels
+                            and h._edge_labels[rule.rhs._edges[k].label.name] != rule.rhs._edges[k].label)
+                           or (rule.rhs._edges[k].label.name == rule.lhs.name
+                               and rule.rhs._edges[k].label != rule.lhs)), "Id"))
+
+def tables_after_rule(h, rule):
+    return (forall(lambda s: (s in h._edge_labels) == (
+                s in old(h._edge_labels) or s == rule.lhs.name
+                or exists(lambda k: k in rule.rhs._edges and rule.rhs._edges[k].label.name == s, "Id")), "str")
+            and forall(lambda s: implies(s in old(h._edge_labels), h._edge_labels[s] == old(h._edge_labels)[s]), "str")
+            and h._edge_labels[rule.lhs.name] == rule.lhs
+            and forall(lambda k: implies(k in rule.rhs._edges,
+                                         h._edge_labels[rule.rhs._edges[k].label.name] == rule.rhs._edges[k].label), "Id")
+            and forall(lambda s: (s in h._node_labels) == (
+                s in old(h._node_labels)
+                or exists(lambda k: k in rule.rhs._nodes and rule.rhs._nodes[k].label.name == s, "Id")), "str"))
+
+
+@contract("fggs.fggs.HRG.add_rule")
+class HRG_add_rule:
+    sig = {"self": "HRGLabels", "rule": "HRGRule"}
+    properties = ["C16"]
+    requires = lambda self, rule: (label_tables_keyed_by_name(self) and wf_graph(rule.rhs))
+    loops = {
+        0: lambda self, rule, _i0, _it0: (
+            same_tables(self) and same_graph_state(rule.rhs)
+            and forall(lambda j: implies(0 <= j and j < _i0,
+                                         not (_it0[j].label.name in self._edge_labels
+                                              and self._edge_labels[_it0[j].label.name] != _it0[j].label)
+                                         and not (_it0[j].label.name == rule.lhs.name and _it0[j].label != rule.lhs)), "int")),
+        1: lambda self, rule, _i1, _it1: (
+            same_graph_state(rule.rhs) and label_tables_keyed_by_name(self) and not old(rule_label_conflict(self, rule))
+            and self._edge_labels == put(old(self._edge_labels), rule.lhs.name, rule.lhs)
+            and forall(lambda s: (s in self._node_labels) == (
+                s in old(self._node_labels) or exists(lambda j: 0 <= j and j < _i1 and _it1[j].label.name == s, "int")), "str")),
+        2: lambda self, rule, _i2, _it2: (
+            same_graph_state(rule.rhs) and label_tables_keyed_by_name(self) and not old(rule_label_conflict(self, rule))
+            and forall(lambda s: (s in self._node_labels) == (
+                s in old(self._node_labels)
+                or exists(lambda k: k in rule.rhs._nodes and rule.rhs._nodes[k].label.name == s, "Id")), "str")
+            and forall(lambda s: (s in self._edge_labels) == (
+                s in old(self._edge_labels) or s == rule.lhs.name
+                or exists(lambda j: 0 <= j and j < _i2 and _it2[j].label.name == s, "int")), "str")
+            and forall(lambda s: implies(s in old(self._edge_labels), self._edge_labels[s] == old(self._edge_labels)[s]), "str")
+            and self._edge_labels[rule.lhs.name] == rule.lhs
+            and forall(lambda j: implies(0 <= j and j < _i2, self._edge_labels[_it2[j].label.name] == _it2[j].label), "int")),
+    }
+    ensures = {
+        "tables": lambda self, rule: tables_after_rule(self, rule),
+        "keyed": lambda self, rule: label_tables_keyed_by_name(self),
+        "rhs_untouched": lambda self, rule: same_graph_state(rule.rhs),
+    }
+    raises = {"ValueError": lambda self, rule: rule_label_conflict(self, rule)}
+    on_raise = {"ValueError": lambda self, rule: same_tables(self) and same_graph_state(rule.rhs)}
+
+
+def same_tables(t):
+    return t._node_labels == old(t._node_labels) and t._edge_labels == old(t._edge_labels)
+
+
+def is_the_lhs(l, name, rhs):
+    # l is the nonterminal label that new_rule builds for `name`: typed by the external nodes of rhs
+    return l.name == name and l.is_nonterminal and l.node_labels == [n.label for n in rhs._ext]
+
+
+@contract("fggs.fggs.HRG.new_rule")
+class HRG_new_rule:
+    sig = {"self": "HRGLabels", "lhs": "str", "rhs": "Graph"}
+    properties = ["C16"]
+    requires = lambda self, lhs, rhs: label_tables_keyed_by_name(self) and wf_graph(rhs)
+    ensures = {
+        "rule": lambda self, lhs, rhs, result: (is_the_lhs(result.lhs, lhs, rhs) and result.rhs is rhs
+                                                and same_graph_state(rhs)),
+        "tables": lambda self, lhs, rhs, result: tables_after_rule(self, result) and label_tables_keyed_by_name(self),
+    }
+    raises = {"ValueError": lambda self, lhs, rhs: (
+        (lhs in self._edge_labels and not is_the_lhs(self._edge_labels[lhs], lhs, rhs))
+        or exists(lambda k: k in rhs._edges
+                  and ((rhs._edges[k].label.name in self._edge_labels
+                        and self._edge_labels[rhs._edges[k].label.name] != rhs._edges[k].label)
+                       or (rhs._edges[k].label.name == lhs and not is_the_lhs(rhs._edges[k].label, lhs, rhs))), "Id"))}
+    on_raise = {"ValueError": lambda self, lhs, rhs: same_tables(self) and same_graph_state(rhs)}
